@@ -215,8 +215,12 @@ CLAIMED["C08"] = dict(
 CLAIMED["C05"] = dict(
     text="Lean theorems C05_io_width / C05_io_decodes / C05_output_shape: for every type and well-typed value, an argument or "
          "result of type t occupies exactly t.size wires, the output of a run is 161 panic wires followed by exactly t.size "
-         "wires, and they decode to the value. PARTIAL: compile.rs is not modelled as a whole, so that EVERY accepted program "
-         "compiles without a panic to a valid circuit of that shape is explored: generated well-typed programs (all literal "
+         "wires, and they decode to the value. C05_output_width (Proofs/BitWidth.lean): in the compiler model (Model/BitSem.lean, "
+         "every expression and statement form except for-join) the compiled body of a function has exactly size(T) output wires "
+         "for its result type T, for ANY wires on the inputs - valid encodings or not, panicking runs included - and all "
+         "variables keep the width of their types (one mutual induction over the syntax; widths of every operator circuit in "
+         "Proofs/ArithLen.lean). PARTIAL: the type checker and the gate level are not modelled, so that EVERY accepted program "
+         "compiles without a panic to a circuit that passes validate is explored: generated well-typed programs (all literal "
          "types written out) must be accepted (the converse direction), compile in 4 circuit configurations, pass "
          "Circuit::validate, have input_gates equal to the sizes of the parameter types (one party per element for a single "
          "array parameter), 161 + size(return type) outputs, and return Val.encode of the value the source semantics compute; "
@@ -225,7 +229,7 @@ CLAIMED["C05"] = dict(
     design_ref="DESIGN.md §6 C05",
     note="trusted: Lean kernel; Model/Value.lean encode/decode tied to literal.rs by C09's correspondence; the generator's notion "
          "of `well-typed` is its own (type-directed construction), checked against /repo by acceptance",
-    technique="Lean 4 proof (I/O contract) + differential testing of compile() against the source semantics",
+    technique="Lean 4 proof (I/O contract; output width of the compiler model for all inputs) + differential testing of compile() against the source semantics",
 )
 
 CLAIMED["C13"] = dict(
@@ -249,16 +253,22 @@ CLAIMED["C12"] = dict(
          "+, -, min, max, wrapping in the constant's own type): C12_in_range - every constant is a value of its type; "
          "C12_linear_wrap_once - for +/- expressions wrapping after every operation equals computing over the integers and "
          "wrapping once, for every width (why compile.rs, which computes in 64 bits and truncates, is right there); "
-         "C12_minmax_differs - under min/max the two differ (a recorded finding). PARTIAL: the substitution property itself is "
-         "explored: programs whose array sizes, trip counts, repeat sizes and number of parties come from usize constants, and "
+         "C12_minmax_differs - under min/max the two differ (a recorded finding). Program level: C12_program - the compiler "
+         "model (Model/BitSem.lean) binds every constant of a program to the encoding of its value in the outermost scope, and "
+         "for every function of the fragment, every inlining depth, all arguments and every fuel the compiled body returns what "
+         "the source semantics return when the constants are variables bound to their values (C12_const_reads_value / "
+         "C12_literal_is_value: such a variable evaluates like the number written out). PARTIAL: the equivalence with the "
+         "program TEXT in which the values are written out (parser, inference of unsuffixed numbers, compile_with_constants' "
+         "own bookkeeping of sizes and missing / mistyped constants) is explored: programs whose array sizes, trip counts, repeat sizes and number of parties come from usize constants, and "
          "generated programs in which literals are replaced by constants of every type (external values of 3 parties, nested "
          "min/max/+/-, references to earlier constants) are compiled with the constants supplied and, independently, from the "
          "text with the values written out: same input parties, same outputs; then constants are left out or supplied with "
-         "another type: an error naming them, never a panic.",
+         "another type: an error naming them, never a panic; the circuits compiled with constants are also compared with "
+         "Bit.bitBody on the syntax tree that refers to the constants (ties C12_program to compile_with_constants).",
     design_ref="DESIGN.md §6 C12",
     note="trusted: Lean kernel; evalC is the hand-written meaning of constant expressions; usize constants are kept below 2^32 and "
          "do not wrap in generated programs (they are array sizes)",
-    technique="Lean 4 proof (constant arithmetic) + metamorphic comparison with the substituted program",
+    technique="Lean 4 proof (constant arithmetic; compiler model with constants refines the source semantics) + metamorphic comparison with the substituted program",
 )
 
 CLAIMED["C17"] = dict(
